@@ -46,6 +46,8 @@ def run(ctx):
         ctx.tlc("MC_Pipeline", cfg, workers=2, coverage=True)
     ctx.tlc("MC_Pipeline", "MC_Pipeline_asbuilt", must_pass=False, workers=2, label="MC_Pipeline_asbuilt(documents the pinned crash points)", coverage=False)
     ctx.tlc("MC_Totality", "MC_Totality_typepos", replay="totality", coverage=False)
+    # definitions that take the name of something built in, inside a module or outside of any, in front of a use of the keyword
+    ctx.tlc("MC_Totality", "MC_Totality_taken", replay="totality", coverage=False)
     ctx.tlc("MC_Totality", "MC_Totality_options", replay="totality", coverage=False)
     ctx.tlc("MC_Totality", "MC_Totality_scale_" + ctx.tier, replay="totality", coverage=False, case_timeout_ms=25000)
     ctx.tlc("MC_Totality", "MC_Totality_soup_" + ctx.tier, replay="totality", coverage=False)
